@@ -65,6 +65,12 @@ def parseOp (s : String) : Option Op :=
         | [a, c] => do pure ((← parseAtomId? a), (← c.toNat?))
         | _ => none) l
       pure (.addHydrogens hs)
+  | ["rebond", b, x, y] => do pure (.appendBondObj (← b.toNat?) (← parseSpec? x) (← parseSpec? y))
+  | ["rebonds", l] => do
+      let ps ← parseList? (fun t => match t.splitOn "+" with
+        | [b, x, y] => do pure ((← b.toNat?), (← parseSpec? x), (← parseSpec? y))
+        | _ => none) l
+      pure (.appendBondObjs ps)
   | ["mkview", l] => do pure (.mkView (← parseList? parseRef? l))
   | ["vread", l] => do pure (.viewRead (← parseList? parseAtomId? l))
   | ["vwrite", l, ps] => do pure (.viewWrite (← parseList? parseAtomId? l) (← parseList? (·.toNat?) ps))
